@@ -59,11 +59,15 @@ class SetE:
 class DictE:
     kind = "dict"
 
+    owner = None  # Ref of the object whose live __dict__ this is (St.get re-binds items to that object's attrs)
+
     def __init__(self, items=None):
         self.items = dict(items or {})
 
     def copy(self):
-        return DictE(self.items)
+        d = DictE(self.items)
+        d.owner = self.owner
+        return d
 
 
 class ObjE:
